@@ -29,6 +29,12 @@ MUST = ["lu_mut", "qr_mut", "cholesky_mut", "svd_mut", "SVD::<T, M>::solve", "LU
 def run_e4(ck, prog, scope, must, exceptions=None, floor=0):
     rule = "E4-scale"
     bodies = prog.find(scope)
+    for b0 in list(bodies):
+        stack = list(prog.closures_of.get(b0.path, []))
+        while stack:
+            c = stack.pop()
+            bodies.append(c)
+            stack.extend(prog.closures_of.get(c.path, []))
     for m in must:
         if not any(m in b.path for b in bodies):
             ck.violation(rule, "anchor", m, "", expected="function in scope exists", found="anchor vanished")
@@ -88,6 +94,26 @@ def cholesky_guard(ck, prog):
                 site = c.where
             else:
                 detail = f"pivot comparison at {c.where}: Err on atoms {sorted(viol)}, dominates sqrt: {dom}"
+    if not ok:
+        # helper form: `check_pivot(d)?` dominating the sqrt
+        from sa import e1
+        from sa.e1 import G
+        from sa.match import Arg
+        for bb, t in b.calls():
+            f = t.get("f")
+            cal = None
+            for key in ((f or {}).get("resolved"), (f or {}).get("path")):
+                if key and key in prog.bodies:
+                    cal = prog.bodies[key]
+            if cal is None or cal is b:
+                continue
+            for j, a in enumerate(t["args"]):
+                at = cx.res.operand(a)
+                if any(at == s for _, s in sqrts) and all(b.dominates(bb, sb) for sb, s in sqrts if s == at) and e1._propagates_err(b, cx, bb, t):
+                    g2 = G(inst, cal, Arg(j + 1), zero, "n", "p", "Err", interproc=False)
+                    ok2, d2, sites, _ = e1.eval_guard(prog, g2, cal)
+                    if ok2:
+                        ok, site, detail = True, sites[0] if sites else b.where(bb), f"via {cal.path}: {d2}; ?-propagated; dominates sqrt"
     if ok:
         ck.ok(rule, inst, b.path, site, detail)
     else:
@@ -95,7 +121,7 @@ def cholesky_guard(ck, prog):
 
 
 def run(ck, prog):
-    n, _ = run_e4(ck, prog, SCOPE, MUST, floor=22)
+    n, _ = run_e4(ck, prog, SCOPE, MUST, floor=16)
     ck.extra["t_comparisons_classified"] = n
     cholesky_guard(ck, prog)
     ck.floor("E1-guard", 1)
